@@ -39,7 +39,9 @@ NAMES = TOOL_NAMES + AGG_NAMES
 
 
 def baseline_of(spec):
-    srcs = [SrcPlan(p.name, p.items, "list") for p in spec.srcs]
+    alias = spec.p.get("alias")
+    srcs = [SrcPlan(p.name, p.items, "sync_iter" if (alias and n == alias[0]) else "list")
+            for n, p in enumerate(spec.srcs)]
     fns = [FnPlan(p.name, p.kind, p.param, "def") if p is not None else None for p in spec.fns]
     base = Spec(spec.tool, srcs, fns, spec.p)
     return base
